@@ -96,15 +96,18 @@ theorem inv2_freeze {st : St} (hr : st.phase = .running) (hi : Inv st) (h : Inv2
   unfold doFreeze
   split
   case h_2 => exact h
-  case h_1 r0 rs hfz hmm =>
-    obtain ⟨a, b, c, d⟩ := h
-    constructor
-    · exact a
-    · exact b
-    · intro r hr'; simp at hr'
-    · intro fz hfz' _ r hr'
-      simp at hfz'; subst hfz'
-      exact (c r (by rw [hmm]; exact hr')).1
+  case h_1 hfz =>
+    split
+    case isTrue => exact h
+    case isFalse =>
+      obtain ⟨a, b, c, d⟩ := h
+      constructor
+      · exact a
+      · exact b
+      · intro r hr'; simp at hr'
+      · intro fz hfz' _ r hr'
+        simp at hfz'; subst hfz'
+        exact (c r hr').1
 
 theorem inv2_dataCommit {st : St} (hr : st.phase = .running) (hi : Inv st) (h : Inv2 st) :
     Inv2 (doDataCommit st) := by
@@ -187,6 +190,10 @@ theorem inv2_step (cfg : Cfg) {st : St} (e : Ev) (hi : Inv st) (h : Inv2 st) : I
     · split
       · exact h
       · exact inv2_same h rfl rfl rfl rfl
+    · exact h
+  case foreignWrite m t =>
+    split
+    · exact inv2_same h (by simp) (by simp) (by simp) (by simp)
     · exact h
   case applyTake =>
     split
